@@ -24,7 +24,7 @@ Pairs(x) == {<<x[j][1], x[j][2]>> : j \in 1..Len(x)}
 
 Verdict(e) ==
   LET lab == [a \in 1..e.k |-> a - 1]
-      chs == [c \in 1..e.c |-> ChainRetained(e.tr, e.c, e.s, c, e.burn, lab)]
+      chs == TLCEval([c \in 1..e.c |-> ChainRetained(e.tr, e.c, e.s, c, e.burn, lab)])
       sm == SummaryOfG(chs, e.p, e.k, "allele", e.thetas, e.rank = 1)
       o == e.out
   IN  IF ~(\A c \in 1..e.c, s \in 1..e.s : IsSorted(e.tr[c][s]) /\ Len(e.tr[c][s]) = e.p) THEN "StoredAscending"
